@@ -44,7 +44,6 @@ def proof_files(tier):
 
 # ----------------------------------------------------------------------------- reference geometry
 TOL = 1e-9          # degrees, on the sphere
-POLE_CAP = 1e-3     # degrees: distance from a pole below which the asin formulas lose 1e-9 deg accuracy
 D2R = math.pi / 180.0
 
 
@@ -95,6 +94,62 @@ def ref_pa(a1, d1, a2, d2):
     y = math.cos(d1 * D2R) * math.sin(da)
     x = math.sin(dd) + 2.0 * math.sin(d2 * D2R) * math.cos(d1 * D2R) * math.sin(da / 2.0) ** 2
     return math.degrees(math.atan2(y, x))
+
+
+# --- 50-digit reference (decimal) for the separation and the position angle: the float inputs are
+# taken exactly, so the reference is right to ~1e-40 even for separations of 1e-7 degree
+from decimal import Decimal as _D, getcontext as _ctx
+_ctx().prec = 60
+_PI = _D("3.14159265358979323846264338327950288419716939937510582097494459230781640628620899")
+_D2R = _PI / 180
+
+
+def d_sincos(x):
+    """(sin x, cos x) of a Decimal x (radians)"""
+    k = (x / (2 * _PI)).to_integral_value()
+    r = x - 2 * _PI * k
+    r8 = r / 8                       # |r8| <= pi/8, then three double-angle steps
+    s, c, t, n, x2 = _D(0), _D(0), r8, 1, r8 * r8
+    term_s, term_c = r8, _D(1)
+    s, c = term_s, term_c
+    for i in range(1, 40):
+        term_c = -term_c * x2 / ((2 * i - 1) * (2 * i))
+        term_s = -term_s * x2 / ((2 * i) * (2 * i + 1))
+        c += term_c; s += term_s
+    for _ in range(3):
+        s, c = 2 * s * c, c * c - s * s
+    return s, c
+
+
+def d_atan2(y, x):
+    """atan2 of Decimals, by Newton refinement of the double-precision value"""
+    if y == 0 and x == 0: return _D(0)
+    t = _D(math.atan2(float(y), float(x)))
+    r = (x * x + y * y).sqrt()
+    for _ in range(3):
+        s, c = d_sincos(t)
+        t = t - (s * x - c * y) / (c * x + s * y)
+    return t
+
+
+def d_uv(lon, lat):
+    sl, cl = d_sincos(_D(lon) * _D2R); sb, cb = d_sincos(_D(lat) * _D2R)
+    return (cb * cl, cb * sl, sb)
+
+
+def ref_sep_hp(a1, d1, a2, d2):
+    u, v = d_uv(a1, d1), d_uv(a2, d2)
+    cr = (u[1] * v[2] - u[2] * v[1], u[2] * v[0] - u[0] * v[2], u[0] * v[1] - u[1] * v[0])
+    n = (cr[0] * cr[0] + cr[1] * cr[1] + cr[2] * cr[2]).sqrt()
+    dt = u[0] * v[0] + u[1] * v[1] + u[2] * v[2]
+    return float(d_atan2(n, dt) / _D2R)
+
+
+def ref_pa_hp(a1, d1, a2, d2):
+    """position angle of body 1 seen from body 2: atan2(u1.east2, u1.north2) in 60 digits"""
+    sda, cda = d_sincos((_D(a1) - _D(a2)) * _D2R)
+    s1, c1 = d_sincos(_D(d1) * _D2R); s2, c2 = d_sincos(_D(d2) * _D2R)
+    return float(d_atan2(c1 * sda, c2 * s1 - s2 * c1 * cda) / _D2R)
 
 
 def angle_diff(a, b):
@@ -215,6 +270,17 @@ def r_triple(rng):
     return out
 
 
+def pa_regime(a1, d1, a2, d2, sep):
+    """call-site suffix for the three places where relative_position_angle still loses digits
+    (measured against the 60-digit reference): delta-alpha formed across the 0/360 seam; the
+    sum sin(dd) + 2 sin d2 cos d1 sin^2(da/2) cancelling beyond 179.99 deg; cos(delta) of a
+    body within a millidegree of a pole"""
+    if abs(a1 - a2) > 180.0: return "-across-seam"
+    if sep > 179.99: return "-near-180"
+    if max(abs(d1), abs(d2)) > 90.0 - 1e-3: return "-near-pole"
+    return ""
+
+
 # ----------------------------------------------------------------------------- the oracle
 class Oracle:
     def __init__(self, mods):
@@ -259,16 +325,13 @@ class Oracle:
             self.add(fwd + "-latitude-range", "%s -> latitude %r outside [-90,90]" % (expr, la2), inp, expr)
         v = uv(lo2, la2)
         e = angdist(v, ref_fwd(u))
-        # asin loses accuracy within ~1e-3 deg of a pole (error eps/cos(lat)): separate key
-        np_ = "-near-pole" if min(90.0 - abs(lat), 90.0 - abs(la2)) < POLE_CAP else ""
         if not e <= TOL:
-            self.add(fwd + "-rotation" + np_, "%s = (%r, %r) is %.3g deg away from the rotated direction" % (expr, lo2, la2, e), inp, expr)
+            self.add(fwd + "-rotation", "%s = (%r, %r) is %.3g deg away from the rotated direction" % (expr, lo2, la2, e), inp, expr)
         b = self.call(bwd, (lo2, la2) + extra)
         if b is not None:
             e = angdist(uv(b[0], b[1]), u)
-            np2 = "-near-pole" if min(90.0 - abs(lat), 90.0 - abs(la2), 90.0 - abs(b[1])) < POLE_CAP else ""
             if not e <= TOL:
-                self.add(fwd + "-" + bwd + "-roundtrip" + np2,
+                self.add(fwd + "-" + bwd + "-roundtrip",
                          "%s(%s(%s)) = (%r, %r) is %.3g deg away from the start" % (bwd, fwd, ", ".join(fmt(x) for x in inp), b[0], b[1], e),
                          inp, "%s(*%s%s)" % (bwd, expr, "".join(", " + A(x) for x in extra)) if False else
                          "%s(*(%s + (%s)))" % (bwd, expr, "".join(A(x) + "," for x in extra)))
@@ -279,22 +342,21 @@ class Oracle:
         r1 = self.call(fwd, p1 + extra); r2 = self.call(fwd, p2 + extra)
         if r1 is None or r2 is None: return
         s0 = angdist(uv(*p1), uv(*p2)); s1 = angdist(uv(*r1), uv(*r2))
-        np_ = "-near-pole" if min(90.0 - abs(x) for x in (p1[1], p2[1], r1[1], r2[1])) < POLE_CAP else ""
         if not abs(s0 - s1) <= TOL:
-            self.add(fwd + "-angle-preserved" + np_, "%s changes the angle between %r and %r from %r to %r deg" % (fwd, p1, p2, s0, s1),
+            self.add(fwd + "-angle-preserved", "%s changes the angle between %r and %r from %r to %r deg" % (fwd, p1, p2, s0, s1),
                      list(p1 + p2 + extra), "(%s(%s), %s(%s))" % (fwd, ", ".join(A(x) for x in p1 + extra), fwd, ", ".join(A(x) for x in p2 + extra)))
 
     def separation(self, a1, d1, a2, d2):
         ref = angdist(uv(a1, d1), uv(a2, d2))
         if not (1e-7 <= ref <= 179.999): return
+        ref = ref_sep_hp(a1, d1, a2, d2)
         args = (a1, d1, a2, d2)
         s = self.call("angular_separation", args)
         if s is None: return
         self.nontrivial += 1
         expr = "angular_separation(%s)" % ", ".join(A(x) for x in args)
         if not abs(s - ref) <= TOL:
-            # 2*asin(sqrt(h)) has condition number 1/cos(theta/2): ~1e-9 deg of rounding beyond 179.99
-            self.add("separation-value" + ("-near-180" if ref > 179.99 else ""), "%s = %r, dot/cross-product value %r (diff %.3g deg)" % (expr, s, ref, s - ref), list(args), expr)
+            self.add("separation-value", "%s = %r, dot/cross-product value %r (diff %.3g deg)" % (expr, s, ref, s - ref), list(args), expr)
         if not (0.0 <= s <= 180.0):
             self.add("separation-range", "%s = %r outside [0,180]" % (expr, s), list(args), expr)
         s2 = self.call("angular_separation", (a2, d2, a1, d1))
@@ -305,17 +367,17 @@ class Oracle:
         p = self.call("relative_position_angle", args)
         if p is None: return
         pexpr = "relative_position_angle(%s)" % ", ".join(A(x) for x in args)
-        pref = ref_pa(a1, d1, a2, d2)
-        # conditioning: the angle is determined to ~eps/sin(sep); compare on the sphere
+        pref = ref_pa_hp(a1, d1, a2, d2)
         e = abs(angle_diff(p, pref))
         if not e <= TOL:
-            # cos d2 tan d1 - sin d2 cos da cancels for close bodies: relative error eps/separation
-            self.add("position-angle-value" + ("-small-separation" if ref < 1e-3 else "-near-180" if ref > 179.99 else ""), "%s = %r, cross/dot-product value %r (diff %.3g deg, separation %.3g deg)" % (pexpr, p, pref, e, ref), list(args), pexpr)
+            # alpha1 - alpha2 is formed in the 0..360 representation: across the seam the tiny true
+            # difference inherits the rounding of a number near 360 (distinct call-site key)
+            self.add("position-angle-value" + pa_regime(a1, d1, a2, d2, ref), "%s = %r, cross/dot-product value %r (diff %.3g deg, separation %.3g deg)" % (pexpr, p, pref, e, ref), list(args), pexpr)
         q = self.call("relative_position_angle", (a2, d1, a1, d2))
         if q is not None and abs(math.sin((a1 - a2) * D2R)) > 1e-12:
             e = abs(angle_diff(q, -p))
             if not e <= TOL:
-                self.add("position-angle-antisymmetry" + ("-small-separation" if ref < 1e-3 else "-near-180" if ref > 179.99 else ""), "%s = %r but with the right ascensions exchanged %r (sum %.3g deg)" % (pexpr, p, q, e), list(args), pexpr)
+                self.add("position-angle-antisymmetry" + pa_regime(a1, d1, a2, d2, ref), "%s = %r but with the right ascensions exchanged %r (sum %.3g deg)" % (pexpr, p, q, e), list(args), pexpr)
 
     def triple(self, t):
         args = tuple(t)
@@ -376,7 +438,4 @@ def search(rng, tier, deep):
                      "relative_position_angle against dot/cross products, symmetry; a triple of nearby bodies: circle_diameter within [a, 2a/sqrt(3)], "
                      "straight_line against cross products" % n,
              "samples": [{"input": [10.0, 90.0, 23.44], "checked": "equatorial2ecliptical at the pole within 1e-9 deg of Rx(-eps) u, ecliptical2equatorial returns to the pole"}]}
-    # findings outside the ill-conditioned regimes (poles, tiny / near-180 separations) first
-    special = ("-near-pole", "-domain-error", "-small-separation", "-near-180")
-    O.findings.sort(key=lambda f: any(f["key"].endswith(x) for x in special))
     return O.findings, stats
